@@ -10,8 +10,8 @@ RULE = ("op roundtrip: random trees inside the quantifier (2..14 tips, thorough 
         "inner nodes; 0..3 node and root comments and at most one branch comment (only with a length) with hostile content "
         ";,():[ blanks tabs newlines, empty), plus trees outside the quantifier (support on tips or named nodes, two branch "
         "comments, branch comment without length, names with metacharacters / surrounding blanks / numeric inner names, ']' in "
-        "comments, empty tip names, root with one child) for the correspondence only; op parse: valid texts with blanks inserted "
-        "between tokens, truncations, splices, character mutations/insertions/deletions of valid texts and a fixed list of "
+        "comments, empty tip names, root with one child, NUL or invalid UTF-8 in names/comments) for the correspondence only; op parse: valid texts with blanks inserted "
+        "between tokens, truncations, splices, character and raw-byte mutations/insertions/deletions (NUL, invalid UTF-8) of valid texts and a fixed list of "
         "hand-written edge cases, number texts (long decimals, exponents, hex floats, underscores, halfway and overflow/underflow boundaries) in length and support position; a case is non-trivial when it is a round trip inside the quantifier or an accepted text; "
         "distinct = distinct case text")
 TRUSTED = ["tree built through NewNode/NewEdge + verif hooks (exact neighbour order); dump through Neigh()/Edges()/Left()/Right()",
@@ -19,7 +19,8 @@ TRUSTED = ["tree built through NewNode/NewEdge + verif hooks (exact neighbour or
            "correct rounding to binary64, exact decimal expansion) and compared with the real ones through every case"]
 ASSUMPTIONS = ["strconv: FormatFloat(x,'f',-1,64) of a finite x is non-empty, free of ()[],:;/ and blanks, and ParseFloat reads it back "
                "to x (Section hypotheses of the round-trip theorem; instantiated for exact finite decimals)",
-               "input is valid UTF-8 without NUL (the lexer reads runes and uses rune 0 as its EOF marker); -0 is not modelled"]
+               "names and comments are valid UTF-8 text without NUL (the reader decodes runes, replaces undecodable bytes by U+FFFD and takes "
+               "rune 0 for the end of input: both are modelled, and such trees are read as outside the quantifier, DESIGN 3.3); -0 is not modelled"]
 LEVEL_TEXT = "proof"
 LEVEL_NOTE = ""
 
@@ -85,7 +86,7 @@ class G(Gen):
             if r < 0.92: return -Fraction(rng.randrange(1, 257), 64) if rng.random() < 0.9 else Fraction(-2)
             if r < 0.95: return Fraction(rng.randrange(1, 2**20), 2**20)
             # arbitrary binary64 values: 17 significant digits, tiny, huge, subnormal
-            if r < 0.99: return Fraction(rng.random() * 10.0 ** rng.randrange(-8, 9))
+            if r < 0.997: return Fraction(rng.random() * 10.0 ** rng.randrange(-8, 9))
             return Fraction(rng.choice([5e-324, 1.7976931348623157e308, 2.2250738585072014e-308, 1e21, 1e22, 1e23, 0.1, 0.30000000000000004,
                                         1e-7, 123456789012345680.0, 4503599627370496.5, 9007199254740992.0, 1e-320, 0.000001]))
         # support / p-value
@@ -168,7 +169,7 @@ class G(Gen):
         inner = [(e, c) for (e, c) in nodes[1:] if kids(c)]
         tips = [(e, c) for (e, c) in nodes[1:] if not kids(c)]
         what = rng.choice(["tipsup", "namedsup", "twoecom", "ecomnolen", "metaname", "blankname", "numinner", "brackcom",
-                           "emptytip", "pvonly", "numroot", "innerblank", "root1"])
+                           "emptytip", "pvonly", "numroot", "innerblank", "root1", "nultext", "badutf8"])
         if what == "tipsup" and tips:
             e, c = rng.choice(tips); e["sup"] = Fraction(1, 2)
         elif what == "namedsup" and inner:
@@ -194,6 +195,15 @@ class G(Gen):
             e, c = rng.choice(tips); c["name"] = ""
         elif what == "pvonly" and inner:
             e, c = rng.choice(inner); c["name"] = ""; e["sup"] = None; e["pv"] = Fraction(1, 8)
+        elif what == "nultext":
+            e, c = rng.choice(nodes)
+            if rng.random() < 0.5: c["name"] = rng.choice(["A\x00B", "\x00", "A\x00", "\x00A"])
+            else: c["coms"] = [rng.choice(["c\x00d", "\x00", "x\x00"])]
+        elif what == "badutf8":
+            e, c = rng.choice(nodes)
+            bad = rng.choice(["A\udcff", "\udcc3", "x\udce2\udc82", "\udc80y", "\udced\udca0\udc80", "\udcc0\udcaf", "ok\udcf4\udc90\udc80\udc80", "\udcc3\udca9\udcc3"])
+            if rng.random() < 0.6: c["name"] = bad
+            else: c["coms"] = [bad]
         elif what == "root1":
             (e, c) = kids(t)[0]
             t["slots"] = [(e, c)]
@@ -216,6 +226,9 @@ HAND = [
     "(A B,C);", "(A  ,  B);", "( A , B );", "('A B',C);", "(A\tx,C);", "(A,B)  name  ;", "(A,B) name;", "(12,1e5);", "(0x1p-2,1_0);", "((12,B)13,C);",
     "(A,B)name[c]:1;", "(A,B)1;", "(A,B)1/2;", "(A,B)x/y;", "(A,(B,C)x/y)z/w;", "((A,B)x/y);", "((A,B)x/y)", "((A,B)x/y", "(A,(B,C)x/y[c", "((B,C)x/y,(D,E)1/q);",
     "(((((((((((A,B),C),D),E),F),G),H),I),J),K),L);", "(A,B,C,D,E,F,G,H,I,J,K,L,M,N,O,P);", "((((((((((A))))))))));", "(A,(B,(C,(D,(E,(F,(G,(H,(I,J)))))))));",
+    "(A,B)\x00;", "(A,B\x00C);", "(A\x00,B);", "\x00(A,B);", "(A,B);\x00", "(A[c\x00d],B);", "(A:1\x00,B);", "(A \x00 ,B);", " \x00 (A,B);", "(A,B) \x00 ;",
+    b"(A\xff,B);", b"(\xc3,B);", b"(A\xe2\x82,B);", b"(\xe2\x82\xac,B);", b"(A\x80\x80,B);", b"(\xf0\x9f\x98\x80,\xf0\x9f\x98);", b"(\xed\xa0\x80,B);", b"(\xc0\xaf,\xe0\x80\xaf);",
+    b"(A\xc2\xa0,\xc2\xa0B);", b"(A\xc2,B\xe2\x80);", b"(\xf4\x90\x80\x80,B);", b"(\xef\xbf\xbd,B);", b"(A[\xff],B);",
     "(A;B);", "(A,B;C);", "(A,B)[;];", "(A[;],B);", "(A:1;,B);", "(:1,B);", "(A,:1);", "(,:1);", "(:1);", ":1;", "(A,B):1:2;", "(A,B)x:1y;", "(A,B)[c]x;",
 ]
 
@@ -234,6 +247,22 @@ def mutate(rng, s):
             k = rng.randrange(len(cs) + 1)
             cs[k:k] = cs[i:j]
     return "".join(cs)
+
+def mutate_bytes(rng, s):
+    """byte-level damage: any byte value (NUL, stray continuation bytes, truncated sequences)"""
+    b = bytearray(s.encode("utf-8", "surrogateescape"))
+    for _ in range(rng.choice([1, 1, 2, 3])):
+        r = rng.random()
+        x = rng.choice([0, 0, 0x80, 0xbf, 0xc2, 0xc3, 0xe2, 0xed, 0xf0, 0xf4, 0xff, 0xa0, 0x85]) if rng.random() < 0.6 else rng.randrange(256)
+        if r < 0.4 and b:
+            b[rng.randrange(len(b))] = x
+        elif r < 0.8:
+            b.insert(rng.randrange(len(b) + 1), x)
+        elif b:
+            del b[rng.randrange(len(b))]
+    if rng.random() < 0.2:
+        b = b[:rng.randrange(len(b) + 1)]
+    return bytes(b)
 
 def spaced(rng, s):
     """insert blanks around the structural characters outside comments"""
@@ -294,7 +323,6 @@ def gen(rng, tier):
         out.append({"sx": sx({"op": Sym("roundtrip"), "tree": T(t)}),
                     "meta": {"op": "roundtrip", "kind": kind, "ntips": min(len(leaves(t)), 16), "rootdeg": min(len(t["slots"]), 7)}})
     def ps(s, kind):
-        s = s.replace("\x00", "0")
         out.append({"sx": sx({"op": Sym("parse"), "text": s}), "meta": {"op": "parse", "kind": kind}})
     texts = []
     for _ in range(nwf):
@@ -327,6 +355,8 @@ def gen(rng, tier):
         elif r < 0.4:
             s2 = rng.choice(texts)
             ps(s[:rng.randrange(len(s) + 1)] + s2[rng.randrange(len(s2) + 1):], "splice")
-        else:
+        elif r < 0.8:
             ps(mutate(rng, s), "mut")
+        else:
+            ps(mutate_bytes(rng, s), "bytes")
     return out
